@@ -17,6 +17,8 @@ PATTERNS = [
     r"celeritas::detail::import_transform$",
     r"celeritas::detail::QuadricPlaneConverter::operator\(\)$",
     r"celeritas::detail::QuadricSphereConverter::operator\(\)$",
+    r"celeritas::detail::QuadricCylConverter::operator\(\)$",
+    r"celeritas::detail::QuadricConeConverter::operator\(\)$",
 ]
 
 
